@@ -71,12 +71,38 @@ Theorem C19_mup_async :
   0 <= maxp ->
   forall mon0 cs1 cs2 fin1 fin sels1 sels2 gone,
   hist_ok St Up apply uid m mon0 cs1 fin1 -> hist_ok St Up apply uid m fin1 cs2 fin ->
-  Forall (no_cleanup St Up) (cs1 ++ cs2) ->
   List.length sels1 = List.length cs1 -> Forall (fun x => x <> SelNone) sels1 ->
   let s := async_run St Up uid maxp empty_state (CNew m mon0 :: cs1 ++ cs2) (SelWrite [] :: sels1 ++ sels2) in
   exists r, read_with_updates St Up apply uid (view mkey_eqb s gone) m = ROk r /\
             In r (mems St Up mon0 (cs1 ++ cs2)) /\ mid fin1 <= mid r.
 Proof. intros; eapply async_reported; eauto. Qed.
+
+(** Failing store operations ("individual store operations failing") and crashes in the middle of a
+    call, sync or async: every call of [cs1] completed - its write durable and ANY subset of its removals
+    applied (the others failed, are lazy, or were never executed) -, then the call [c] with ANY outcome
+    [x] - including [SelNone]: its write FAILED, the call returned an error and, because the clean-up is
+    guarded by [if let Ok(()) = write_status], nothing else was done - interrupted after ANY number [k]
+    of the operations it did apply, any subset of limbo applied: recovery returns an in-memory monitor
+    of the history at least as recent as [fin1], the monitor after the last completed call (everything
+    reported persisted). *)
+Theorem C19_mup_faulty_crash_consistent :
+  forall (St Up : Type) (apply : St -> Up -> St) (uid : Up -> Z) (maxp m : Z),
+  0 <= maxp ->
+  forall mon0 cs1 fin1 c after sels1 x k gone,
+  hist_ok St Up apply uid m mon0 cs1 fin1 -> call_ok St Up apply uid m fin1 c after ->
+  List.length sels1 = List.length cs1 -> Forall (fun y => y <> SelNone) sels1 ->
+  let s1 := async_run St Up uid maxp empty_state (CNew m mon0 :: cs1) (SelWrite [] :: sels1) in
+  let s := apply_sops mkey_eqb s1 (firstn k (sel_ops St Up (call_ops St Up uid maxp s1 c) x)) in
+  exists r, read_with_updates St Up apply uid (view mkey_eqb s gone) m = ROk r /\
+            In r (mems St Up mon0 (cs1 ++ [c])) /\ mid fin1 <= mid r.
+Proof. intros; eapply faulty_crash_consistent; eauto. Qed.
+
+(** ... and a call whose write fails applies no store operation at all (no clean-up after a failed
+    consolidation write). *)
+Theorem C19_no_cleanup_after_failed_write :
+  forall (St Up : Type) (uid : Up -> Z) (maxp : Z) s c fails,
+  fails 0%nat = true -> call_ops_f St Up uid maxp s c fails = ([], false).
+Proof. exact no_cleanup_after_failed_write. Qed.
 
 (** The history of finding H1 (monitor 0, updates 1 and 2 in flight, only update 2 durable): the model
     of the FIXED code recovers monitor 0; before the fix [update_monitor] panicked here. *)
